@@ -121,7 +121,8 @@ def run(check):
         rng = random.Random(derive_seed(check.seed, "c16", gi))
         variants = [("same", prog, {})]
         variants.append(("permuted", permuted(prog, rng), {}))
-        m = {s.name: "zz_%s_%d" % (s.name, i) for i, s in enumerate(prog.steps)}
+        styles = ["zz_%s_%d", "Zz%sX%d", "STEP_%s_%d", "camelCase%s%d"]
+        m = {s.name: styles[(gi + i) % len(styles)] % (s.name, i) for i, s in enumerate(prog.steps)}
         variants.append(("renamed", renamed(prog, m), m))
         for vname, p, mm in variants:
             case = {"id": "c16-%05d" % idx, "mode": "prep_many", "files": p.files(), "scripts": {}, "runs": [], "extra": {"reps": reps if vname == "same" else 3}, "no_events": True}
